@@ -801,6 +801,48 @@ fn ref_articulation(g: &GG) -> Vec<u64> {
     out
 }
 
+/// bridges: an adjacent pair whose removal disconnects it. `multigraph` = a pair joined by several
+/// parallel edges is never a bridge; otherwise parallel edges are collapsed (simple-graph view, which
+/// is what the engine's node-pair result type and neighbour sets implement).
+fn ref_bridges(g: &GG, multigraph: bool) -> Vec<(u64, u64)> {
+    let ix = index_of(g);
+    let n = g.nodes.len();
+    let mut mult = vec![vec![0usize; n]; n];
+    for e in &g.edges {
+        let (i, j) = (ix[&e.src], ix[&e.dst]);
+        if i != j {
+            mult[i][j] += 1;
+            mult[j][i] += 1;
+        }
+    }
+    let mut out = Vec::new();
+    for i in 0..n {
+        for j in i + 1..n {
+            if mult[i][j] == 0 || (multigraph && mult[i][j] != 1) {
+                continue;
+            }
+            // is j reachable from i without the (i,j) adjacency?
+            let mut seen = vec![false; n];
+            let mut st = vec![i];
+            seen[i] = true;
+            while let Some(u) = st.pop() {
+                for v in 0..n {
+                    if mult[u][v] > 0 && !seen[v] && !((u == i && v == j) || (u == j && v == i)) {
+                        seen[v] = true;
+                        st.push(v);
+                    }
+                }
+            }
+            if !seen[j] {
+                let (a, b) = (g.nodes[i].0, g.nodes[j].0);
+                out.push((a.min(b), a.max(b)));
+            }
+        }
+    }
+    out.sort_unstable();
+    out
+}
+
 fn ref_mst_weight(g: &GG) -> (i128, usize) {
     let ix = index_of(g);
     let mut es: Vec<(i128, usize, usize)> = g.edges.iter().map(|e| (weight_of(e), ix[&e.src], ix[&e.dst])).collect();
@@ -1482,6 +1524,25 @@ fn do_algorithms(c: &mut Ctx) {
         }
         Err(e) => viol(c.rep, "graph_engine.articulation_points/unexpected_error", &format!("{e:?}"), gj()),
     }
+    // bridges
+    c.rep.case("algo.bridges", Some(&tagc));
+    match c.eng.bridges(&BiconnectedConfig::new()) {
+        Ok(bs) => {
+            let mut got: Vec<(u64, u64)> = bs.into_iter().map(|(a, b)| (a.min(b), a.max(b))).collect();
+            got.sort_unstable();
+            let want = ref_bridges(g, false);
+            c.rep.hit(if want.is_empty() { "bridges.none" } else { "bridges.some" });
+            if got != want {
+                viol(c.rep, "graph_engine.bridges/wrong_set", &format!("got {got:?} want {want:?}"), gj());
+            } else if want != ref_bridges(g, true) {
+                // outside the property's list (components / spanning tree / core numbers / triangles):
+                // recorded, not failed
+                c.rep.hit("bridges.parallel_pair_reported");
+                c.rep.observe(json!({"what": "bridges() reports a node pair joined by parallel edges as a bridge (simple-graph view); in the multigraph removing one of those edges disconnects nothing", "bridges": format!("{got:?}"), "shape": tagc}));
+            }
+        }
+        Err(e) => viol(c.rep, "graph_engine.bridges/unexpected_error", &format!("{e:?}"), gj()),
+    }
 }
 
 fn run_graph(plan: &Planned, m: &mut Model, rep: &mut Report, r: &mut Rng, budget: &Budget) {
@@ -1694,7 +1755,7 @@ fn main() {
             run_graph(&plan, &mut m, &mut rep, &mut r, &budget);
         }
     }
-    let (small, medium, large, neg) = if args.thorough { (600, 200, 60, 80) } else { (90, 30, 8, 16) };
+    let (small, medium, large, neg) = if args.thorough { (900, 300, 90, 120) } else { (220, 70, 20, 36) };
     let mut gen = root.fork("graphs");
     let mut qr = root.fork("queries");
     for (class, count) in [(0u8, small), (1, medium), (2, large)] {
